@@ -6,6 +6,7 @@ import (
 	"encoding/binary"
 	"fmt"
 	"io"
+	"math"
 	"net"
 	"sync"
 	"time"
@@ -716,6 +717,13 @@ func (n *BitcoinNode) handleBlock(ctx context.Context, header *wire.MessageHeade
 	r io.Reader) error {
 
 	start := time.Now()
+
+	// Don't read past the end of this message. The tx count is supplied by the peer and can be
+	// larger than the number of txs the message contains.
+	if header.Length < math.MaxInt64 {
+		r = io.LimitReader(r, int64(header.Length))
+	}
+
 	counter := threads.NewWriteCounter()
 	rc := io.TeeReader(r, counter)
 
